@@ -38,7 +38,9 @@ CLAIMED["C04"] = dict(
     text="The same generated spec (2-10 nodes of 1-2 types, shared templates, drawn edge density and matrix_sparseness) "
          "is simulated with and without vectorisation; all state-variable trajectories must agree column by column. Arm "
          "indexed_edges: 3-12 identical nodes coupled by rings / (partial) permutations with heterogeneous weights in "
-         "drawn edge order, matrix_sparseness chosen so that the index-based edge realisation is used.",
+         "drawn edge order, matrix_sparseness chosen so that the index-based edge realisation is used. Arm edge_templates: "
+         "one EdgeTemplate with an algebraic operator shared by 2-3 projections between two node types with per-edge "
+         "operator values.",
     note="Euler, 12-25 steps; outputs requested by full path in dict form; shapes of listed known findings excluded "
          "(counted in the evidence).",
     design_ref="DESIGN.md §4 C04")
